@@ -92,14 +92,24 @@ REPLIES = {
     'digits2': '220-banner\r\n2024-05-01: maintenance window\r\n1500 users allowed\r\n220x\r\n'
                '220\r\n220 end\r\n',
     'digits3': '230-\r\n999\r\n12 34\r\n2300 x\r\n230 ok\r\n331 next\r\n',
+    # inner lines that look like the final line of another reply
+    'foreign': '220-Welcome\r\n230 users are online right now\r\n220 Service ready\r\n',
+    'foreign2': '426-Transfer aborted\r\n226 MB of quota left\r\n426 Closing data '
+                'connection\r\n',
+    'foreign3': '211-Status\r\n211-ok\r\n200 \r\n 211 x\r\n212-other\r\n211 End\r\n',
 }
 
 
 def ref_reply(data):
-    """RFC 959 reply assembly restricted to the shapes in REPLIES: the reply ends at the
-    first line 'NNN<SP>...'; text lines joined with CRLF, code prefixes stripped."""
+    """RFC 959 section 4.2 reply assembly: a reply that opens with 'NNN-' ends at the first
+    line that begins with the *same* NNN followed by a space; every line in between is text,
+    whatever it begins with.  A reply whose first line is 'NNN<SP>' is that one line.  Text
+    lines are joined with CRLF; the code prefix is stripped from lines carrying the reply's
+    own code (and, when no opening code was seen, from any 'NNN[- ]' line, as wpull does)."""
     text = []
     code = None
+    open_code = None
+    first = True
     pos = 0
     while code is None:
         i = data.find(b'\n', pos)
@@ -109,7 +119,12 @@ def ref_reply(data):
         pos = i + 1
         body = line.rstrip(b'\r\n')
         m = re.match(rb'(\d{3})([ -]?)(.*)$', body, re.S)
-        if m:
+        if first and m and m.group(2) == b'-':
+            open_code = m.group(1)
+        first = False
+        if m and open_code is not None and m.group(1) != open_code:
+            text.append(body)               # a text line that happens to start with digits
+        elif m:
             if m.group(2) == b' ':
                 code = int(m.group(1))
             text.append(m.group(3))
